@@ -16,7 +16,9 @@
     * the simulation NibiruModel.StateDB ~ GethSpec for ANY sequence of write calls, on lazily loaded accounts, accounts created by
       the first write, and accounts absent from the store (NibiruProofs/SDBSim.lean): after the sequence every account read, every
       `GetState` / `GetCommittedState`, the refund counter, the log count and the access list answer as the reference does;
-  NOT proved: the simulation across `CreateAccount`, nested snapshots interleaved with further writes, and `Commit` on the reference
+    * `CreateAccount` preserves the same relation wherever the store holds no slots under the address (the case `evm.create`
+      allows); with persisted slots the two implementations differ by design of Nibiru's object cache (see DESIGN.md);
+  NOT proved: the simulation across nested snapshots interleaved with further writes, and `Commit` on the reference
   side (what Nibiru's Commit persists is proved in SDBCommit.lean); there the observational equality rests on the three-way
   correspondence run.
   The interpreter itself is the same code on both sides and is trusted.
@@ -296,5 +298,12 @@ example : Sim { txStore := { accts := [(1, { nonce := 1, codeHash := 7, balance 
       simp [Store.acct, AList.find?, this]
   · intro a k
     rfl
+
+/-- **C03 (partial) — CreateAccount.** Where the store holds no storage under the address (no code, no nonce: the only case in which
+    `evm.create` calls it), `CreateAccount` keeps the journaled model and the reference related: the balance is carried over, nonce
+    and code start at zero, every slot reads zero on both sides. -/
+theorem C03_createAccount_simulates_reference_partial (s : S) (g : GethSpec.G) (h : Sim s g) (a : Nat)
+    (hs : ∀ k, s.txStore.slot a k = 0) : Sim (createAccount s a) (GethSpec.apply g (.createAccount a)).1 :=
+  sim_createAccount s g h a hs
 
 end Nibiru.SDB
